@@ -14,9 +14,10 @@
    Observation (not a violation; the property does not fix the polarity): the `return_magnitudes`
    flag of constraint_currents is inverted relative to its docstring -- magnitudes are returned when
    the flag is False.  The model follows the code. *)
-From Coq Require Import ZArith QArith Reals Lra List Bool Permutation.
+From Coq Require Import ZArith QArith Qcanon Reals Lra List Bool Permutation.
 From ACN Require Import Base.Num Base.NumR Gen.Analysis_R Model.Ledger Model.LedgerR Model.LedgerQ Model.Analysis Model.AnalysisR
-                        Model.AnalysisQ Proofs.Ledger Proofs.AnalysisStruct Proofs.Analysis.
+                        Model.AnalysisQ Model.LedgerQc Model.AnalysisQc Proofs.LedgerField Proofs.Ledger Proofs.AnalysisStruct
+                        Proofs.AnalysisField Proofs.AnalysisQc Proofs.Analysis.
 Import ListNotations.
 Open Scope R_scope.
 
@@ -160,6 +161,78 @@ Theorem C18_consistent_with_C02 : forall T net ops st (tr : traj (F:=R)),
   total_energy_delivered RO tr = Rsum (map (fun p => p * (T / 60)) (aggregate_power RO RA tr)).
 Proof. exact analysis_consistent_with_ledger. Qed.
 Print Assumptions C18_consistent_with_C02.
+
+(* ------------------------------------------------------------------------------------------------ *)
+(* The same statements over CANONICAL RATIONALS (Qc) -- the instance the correspondence check executes   *)
+(* against the real functions.  Proved once for any commutative-ring carrier (Proofs/AnalysisField.v);   *)
+(* sqrt / max / comparisons are uninterpreted there (implementation-shaped and first-principles sides    *)
+(* use the same functions; this instance's sqrt is a 2^-60 integer square root).  No axioms.            *)
+(* ------------------------------------------------------------------------------------------------ *)
+Theorem C18_kernels_lawful_rational : akern_laws Qc QcO QcA.
+Proof. exact QcA_laws. Qed.
+Print Assumptions C18_kernels_lawful_rational.
+
+Theorem C18_aggregate_rational : forall tr : traj (F:=Qc),
+  Forall (fun row => length row = t_width tr) (t_rates tr) ->
+  length (aggregate_current QcO tr) = t_width tr
+  /\ length (aggregate_power QcO QcA tr) = t_width tr
+  /\ forall t, (t < t_width tr)%nat ->
+       nth t (aggregate_current QcO tr) (Q2Qc 0) = aggregate_current_spec QcO tr t
+       /\ nth t (aggregate_power QcO QcA tr) (Q2Qc 0) = aggregate_power_spec QcO tr t.
+Proof. exact aggregate_Qc. Qed.
+Print Assumptions C18_aggregate_rational.
+
+Theorem C18_constraint_currents_rational : forall (tr : traj (F:=Qc)) flag ids,
+  wf tr -> NoDup (t_cindex tr) ->
+  map fst (constraint_currents QcO QcA tr flag ids) = filter (requested ids) (t_cindex tr)
+  /\ (forall j c, nth_error (t_cindex tr) j = Some c -> requested ids c = true ->
+        dict_get c (constraint_currents QcO QcA tr flag ids) = Some (series_spec_of QcO QcA tr flag j))
+  /\ (forall c, requested ids c = false \/ ~ In c (t_cindex tr) ->
+        dict_get c (constraint_currents QcO QcA tr flag ids) = None).
+Proof. exact constraint_currents_Qc. Qed.
+Print Assumptions C18_constraint_currents_rational.
+
+Theorem C18_energy_metrics_rational : forall (tr : traj (F:=Qc)) threshold,
+  total_energy_requested QcO tr = fsumA QcO (map fst (t_evh tr))
+  /\ total_energy_delivered QcO tr = fsumA QcO (map snd (t_evh tr))
+  /\ proportion_of_energy_delivered QcO QcA tr
+     = (if oeqb QcO (fsumA QcO (map fst (t_evh tr))) (Q2Qc 0) then None
+        else Some (fsumA QcO (map snd (t_evh tr)) / fsumA QcO (map fst (t_evh tr)))%Qc)
+  /\ proportion_of_demands_met QcO QcA tr threshold
+     = match t_evh tr with
+       | [] => None
+       | _ => Some (Q2Qc (inject_Z (Z.of_nat (length (filter (fun e => Qltb (this (fst e - snd e)%Qc) (this threshold)) (t_evh tr)))))
+                    / Q2Qc (inject_Z (Z.of_nat (length (t_evh tr)))))%Qc
+       end.
+Proof. exact metrics_Qc. Qed.
+Print Assumptions C18_energy_metrics_rational.
+
+Theorem C18_nema_rational : forall (tr : traj (F:=Qc)) a b c ja jb jc,
+  wf tr -> NoDup (t_cindex tr) ->
+  nth_error (t_cindex tr) ja = Some a -> nth_error (t_cindex tr) jb = Some b -> nth_error (t_cindex tr) jc = Some c ->
+  current_unbalance QcO QcA tr [a; b; c]
+  = Some (map (fun t => nema_spec QcO (cc_mag_spec QcO tr ja t) (cc_mag_spec QcO tr jb t) (cc_mag_spec QcO tr jc t))
+              (periods tr)).
+Proof. exact nema_Qc. Qed.
+Print Assumptions C18_nema_rational.
+
+Theorem C18_datetimes_rational : forall tr : traj (F:=Qc),
+  length (datetimes_minutes QcO QcA tr) = t_iter tr
+  /\ forall k, (k < t_iter tr)%nat ->
+       nth k (datetimes_minutes QcO QcA tr) (Q2Qc 0) = (t_period tr * Q2Qc (inject_Z (Z.of_nat k)))%Qc.
+Proof. exact datetimes_Qc. Qed.
+Print Assumptions C18_datetimes_rational.
+
+Theorem C18_consistent_with_C02_rational : forall (T : Qc) net ops st (tr : traj (F:=Qc)),
+  Forall batt_ok_Qc (plugged_batts ops) -> simulate QcO KQc T net ops = Some st ->
+  t_width tr = length (rates_by_period st) ->
+  t_rates tr = station_major_of QcO (rates_by_period st) (length net) ->
+  t_volts tr = map s_volt net ->
+  Permutation (map snd (t_evh tr)) (map e_energy (all_evs st)) ->
+  total_energy_delivered QcO tr
+  = fsumA QcO (map (fun p => (p * (T / Q2Qc (inject_Z 60)))%Qc) (aggregate_power QcO QcA tr)).
+Proof. exact consistent_with_ledger_Qc. Qed.
+Print Assumptions C18_consistent_with_C02_rational.
 
 (* ---- non-vacuity ---- *)
 Example C18_wf_example :
